@@ -228,6 +228,8 @@ Definition run_c13 (input : list Z) : list Z :=
       let known := [SYS; PROG_KEY; a_key aa; a_key oa; a_key ta; a_owner aa; a_owner oa; a_owner ta] in
       let is_funder_op := (op =? 0) || (op =? 2) in
       let derived := (via =? 2) || (via =? 4) in
+      (* kind 2: BorshAccount exercised through the trait methods (and close); kind >= 3: BorshAccount through the cleanup
+         arguments, every route, after the write-back of a value of another size (the case's data is the image after it) *)
       let op' := if derived && (kind =? 2) then 3 else op in
       let is_funder_op' := (op' =? 0) || (op' =? 2) in
       (* set-up: account sets validated before the operation, in the harness's order *)
